@@ -79,6 +79,7 @@ ASSUMPTIONS = [
     "are trusted (checked by C06 / C08)",
 ]
 CASE_TIMEOUT = 300
+CHUNK = 2
 
 warnings.filterwarnings("ignore")
 
@@ -129,11 +130,10 @@ FAM2_T = {
     "X1b": ("X", [(1, "v")]),
 }
 FAM4_Q = {      # tensors with 3 / 4 slots
-    "W": ("W", [(2, "oovv"), (2, "ooov"), (2, "oooo"), (2, "ovov")]),
-    "V": ("V", [(2, "oovv"), (2, "ovov"), (2, "oooo"), (2, "vvoo"),
-                (2, "ooov")]),
-    "A": ("A", [(2, "oovv"), (2, "ovov")]),
-    "v": ("v", [(2, "oovv"), (2, "ovov")]),
+    "W": ("W", [(2, "oovv"), (2, "ooov"), (2, "oooo")]),
+    "V": ("V", [(2, "oovv"), (2, "ovov"), (2, "vvoo")]),
+    "A": ("A", [(2, "oovv")]),
+    "v": ("v", [(2, "oovv")]),
     "s": ("s", [(2, "oovv")]),
     "X2": ("X", [(2, "vvoo"), (1, "voo")]),
     "Y2": ("Y", [(2, "vvoo")]),
@@ -166,9 +166,9 @@ FAM4_T = {
 # two occurrences of one name with 3 / 4 slots (and mixed ranks)
 PAIRS4_Q = [("W", (2, "oovv"), (2, "vvoo")), ("V", (2, "oovv"), (2, "oovv")),
             ("X", (2, "vvoo"), (2, "vvoo")), ("X", (1, "vo"), (2, "vvoo")),
-            ("X", (0, "o"), (1, "voo")), ("V", (2, "ovov"), (2, "ovov")),
-            ("W", (2, "ooov"), (2, "ovov"))]
-PAIRS4_T = [("X", (1, "voo"), (1, "voo")), ("t2", (2, "vvoo"), (2, "vvoo")),
+            ("X", (0, "o"), (1, "voo"))]
+PAIRS4_T = [("V", (2, "ovov"), (2, "ovov")), ("W", (2, "ooov"), (2, "ovov")),
+            ("X", (1, "voo"), (1, "voo")), ("t2", (2, "vvoo"), (2, "vvoo")),
             ("v", (2, "oovv"), (2, "oovv")), ("A", (2, "oovv"), (2, "oovv")),
             ("z", (3, "oov"), (3, "oov")), ("d", (2, "ooo"), (2, "ooo")),
             ("V", (2, "ooov"), (2, "ooov")), ("V", (2, "oooo"), (2, "oovv")),
@@ -625,6 +625,10 @@ def generate(tier):
                     # slots only with <= 2 slots per (space, spin)
                     if not small and max(keys.count(k) for k in keys) > 2:
                         continue
+                    if not small and quick and \
+                            (fid not in ("W", "V", "X2") or
+                             sorted(keys) != list("oovv")):
+                        continue
                     rems = [(), (("x", ks),)]
                     if small:
                         rems.append((("x", ks[:1]),))
@@ -657,7 +661,7 @@ def generate(tier):
             allk = _spaces_sorted(k1 + k2)
             nt = len(k1) + len(k2)
             rems = [(), (("x", allk[:2]),)]
-            if not quick or fid in ("d", "f", "X1"):
+            if not quick or fid == "d":
                 rems.append((("x", allk),))
             if not quick:
                 rems.append((("x", allk[1:]),))
@@ -671,7 +675,7 @@ def generate(tier):
                                        distinct=dist):
                     add([_term(pref(), occs, rem, names)], tname)
             # exponent on one of two occurrences
-            if fid in ("d", "f", "a", "X1"):
+            if fid in (("d", "X1") if quick else ("d", "f", "a", "X1")):
                 rem = (("x", allk[:2]),)
                 occs2 = [(tname, nu1, 2, len(k1)), (tname, nu2, 1, len(k2))]
                 for names in _patterns(k1 + k2 + allk[:2],
@@ -679,9 +683,10 @@ def generate(tier):
                     if quick and len(set(names[:nt])) < 3:
                         continue
                     add([_term(pref(), occs2, rem, names)], tname)
-        if fid in ("d", "f", "X1") or not quick:
+        if fid in ("d", "f") or not quick:
             for (nu1, b1), (nu2, b2), (nu3, b3) in \
-                    itertools.combinations_with_replacement(blocks[:3], 3):
+                    itertools.combinations_with_replacement(
+                        blocks[:2 if quick else 3], 3):
                 k1, k2, k3 = list(b1), list(b2), list(b3)
                 allk = k1 + k2 + k3
                 if len(allk) > 6 or "g" in "".join(allk):
@@ -721,7 +726,7 @@ def generate(tier):
             if ein0:
                 if len(ein0) <= 4:
                     variants.append([("x", ein0)])
-                else:
+                elif not quick:
                     h = len(ein0) // 2
                     variants.append([("x", ein0[:h]), ("y", ein0[h:])])
                 if not quick and len(ein0) >= 2:
@@ -1167,14 +1172,17 @@ def _check_remove(ctx):
     if choice is None:
         finding = _fk(fclass, ":value")
         extra = ""
-        if len(ctx["terms"]) > 1 and any(len(k) > 1 for k in res):
-            if _each_term_alone_ok(ctx):
-                finding = ("remove_tensor:several-occurrences-in-different-"
-                           "blocks:slot-order-differs-between-terms")
-                extra = ("\nevery term alone is restored, but the terms "
-                         "assign the blocks of the key to the slot groups in "
-                         "different orders, so that no re-contraction of the "
-                         "summed block expression restores the input")
+        if fclass not in SPECIAL and \
+                _per_term_orders_restore(prepared, lhs, target, model):
+            finding = ORDER_FINDING
+            extra = ("\nthe input is restored if the blocks of the key are "
+                     "assigned to the slot groups in a DIFFERENT order for "
+                     "different terms of the block expression: the slot "
+                     "indices of an occurrence depend on the order in which "
+                     "the occurrences were removed, which depends on the "
+                     "order of the objects in each term; no single "
+                     "re-contraction of the returned expression restores "
+                     "the input")
         return dict(base, status="violation", outcome=outcome + ":value",
                     finding=finding,
                     detail=info + "re-contraction with the documented "
@@ -1196,8 +1204,15 @@ def _check_remove(ctx):
                         finding="oracle-unsupported", detail=info + str(e))
         msg = _sym_violation(rt, len(target), groups)
         if msg:
+            fsym = _fk(fclass, ":result-lacks-tensor-symmetry")
+            if len(groups) >= 3 and fclass not in SPECIAL:
+                # value restored, but a later removal picked one of several
+                # equivalent occurrences and broke the symmetry in the slots
+                # of an earlier one
+                fsym = ("remove_tensor:three-or-more-removals:symmetry-in-"
+                        "slots-of-earlier-removed-occurrence-lost")
             return dict(base, status="violation", outcome=outcome + ":sym",
-                        finding=_fk(fclass, ":result-lacks-tensor-symmetry"),
+                        finding=fsym,
                         detail=info + f"block expression of key {k} (slots "
                         f"{slots}) does not carry the symmetry of the "
                         f"removed tensor: {msg}")
@@ -1210,6 +1225,45 @@ def _check_remove(ctx):
     return dict(base, status="ok", outcome=outcome)
 
 
+ORDER_FINDING = ("remove_tensor:several-occurrences-in-different-blocks:"
+                 "slot-indices-depend-on-removal-order")
+
+
+def _per_term_orders_restore(prepared, lhs, target, model, cap=5000):
+    """classification of a value failure: is there, for the single key with
+    several block orders, an assignment  term of R -> order  that restores
+    the input?"""
+    multi = [(k, alts) for k, alts in prepared if len(alts) > 1]
+    if len(multi) != 1:
+        return False
+    rest = Table(tuple(target), {})
+    for k, alts in prepared:
+        if len(alts) == 1:
+            t = _eval_sum(alts[0][1], target, model)
+            rest = add_tables(rest, Table(t.axes, {kk: v * alts[0][3]
+                                                   for kk, v in
+                                                   t.data.items()}))
+    k, alts = multi[0]
+    nterm = len(alts[0][1])
+    if len(alts) ** nterm > cap:
+        return False
+    per = []
+    for alt in alts:
+        lst = []
+        for prod in alt[1]:
+            t = evaluate(prod, target, model)
+            lst.append(Table(t.axes, {kk: v * alt[3]
+                                      for kk, v in t.data.items()}))
+        per.append(lst)
+    for assign in itertools.product(range(len(alts)), repeat=nterm):
+        tot = rest
+        for j, a in enumerate(assign):
+            tot = add_tables(tot, per[a][j])
+        if tables_equal(lhs, tot) is None:
+            return True
+    return False
+
+
 def _tensor_from_slots(name, nu, slots, name_override=None):
     """tensor with the slot names given in idx order (amplitude: lower+upper)"""
     cls, bks = TSPEC[name]
@@ -1220,20 +1274,6 @@ def _tensor_from_slots(name, nu, slots, name_override=None):
     else:
         names = tuple(slots)
     return build_obj(name, nu, names, name_override)
-
-
-def _each_term_alone_ok(ctx):
-    for t in ctx["terms"]:
-        sub = dict(ctx)
-        sub["terms"] = (t,)
-        sub["built"] = [build_term(t)]
-        sub["E"] = sub["built"][0]
-        sub["case"] = ((t,), ctx["name"])
-        sub["info"] = ""
-        r = _check_remove(sub)
-        if r["status"] != "ok":
-            return False
-    return True
 
 
 # ---------------------------------------------------------------- derivative
